@@ -67,8 +67,11 @@ package ast
 //@   ensures result == nodeSem(self, symRow[s])
 
 // A cursor provider hands out a fresh cursor standing on its first element (or nil).
+// provCursor(f, forward): the cursor a scan obtains from provider f
+//@ spec provCursor(f Int, forward Bool) Int
 //@ functype SetCursorProvider(tx, forward)
 //@   pure
+//@   ensures ref(result) == provCursor(self, forward)
 //@   ensures result != nil ==> fresh(ref(result)) && curPos[result] == 0 && 0 <= curLen[result] && curLen[result] < MaxInt64
 
 //@ func (Query).GetSortFields
@@ -82,3 +85,64 @@ package ast
 // nil / idx / assert / div / unreachable, with the thin contracts below.
 // ---------------------------------------------------------------------------
 //@ sweep C10 node_expr.go node_convert.go node_set.go node_arrays.go node_symbol.go node_query.go node_const.go cursors.go helper.go bolt_listener.go node.go visitor.go
+
+// ---------------------------------------------------------------------------
+// Parse listener (C10): an error latches in bl.err; pops return a usable value
+// unless the latch is set.
+// ---------------------------------------------------------------------------
+
+//@ func (*LoggingListener).printDebug
+//@   pure
+//@ func (*Stack).push
+//@   modifies stack.values
+//@   ensures len(stack.values) == old(len(stack.values)) + 1 && stack.values[old(len(stack.values))] == val
+//@   ensures forall(i, 0 <= i && i < old(len(stack.values)) ==> stack.values[i] == old(stack.values[i]))
+//@ func (*Stack).pop
+//@   modifies stack.values
+//@   ensures[empty] old(len(stack.values)) == 0 ==> result1 != nil && result0 == nil && len(stack.values) == 0
+//@   ensures[top] old(len(stack.values)) > 0 ==> result1 == nil && result0 == old(stack.values[len(stack.values)-1]) && len(stack.values) == old(len(stack.values)) - 1
+//@   ensures forall(i, 0 <= i && i < len(stack.values) ==> stack.values[i] == old(stack.values[i]))
+//@ func (*Stack).peek
+//@   pure
+//@   ensures len(stack.values) == 0 ==> result == nil
+//@   ensures len(stack.values) > 0 ==> result == stack.values[len(stack.values)-1]
+
+//@ typeinv ToBoltListener: self.stacks != nil && self.currentStack != nil
+//@ func (*ToBoltListener).HasError
+//@   pure
+//@   ensures result == (bl.err != nil)
+//@ func (*ToBoltListener).GetError
+//@   pure
+//@   ensures result == bl.err
+//@ func (*ToBoltListener).SetError
+//@   modifies bl.err
+//@   ensures old(bl.err) != nil ==> bl.err == old(bl.err)
+//@   ensures old(bl.err) == nil ==> bl.err == err
+//@ func (*ToBoltListener).enterGroup
+//@   modifies bl.currentStack, bl.stacks.values
+//@   ensures bl.currentStack != nil && bl.stacks == old(bl.stacks)
+//@ func (*ToBoltListener).exitGroup
+//@   modifies bl.currentStack, bl.stacks.values, bl.err
+//@   ensures bl.currentStack != nil && bl.stacks == old(bl.stacks)
+//@   ensures old(bl.err) != nil ==> bl.err != nil
+//@ func (*ToBoltListener).pushStack
+//@   modifies bl.currentStack.values
+//@ func (*ToBoltListener).popStack
+//@   modifies bl.currentStack.values, bl.err
+//@   ensures old(bl.err) != nil ==> bl.err != nil
+//@ func (*ToBoltListener).peekStack
+//@   pure
+//@ func (*ToBoltListener).popNode
+//@   modifies bl.currentStack.values, bl.err
+//@   ensures[latch] old(bl.err) != nil ==> bl.err != nil
+//@   ensures[usable] bl.err == nil ==> result != nil
+//@ func (*ToBoltListener).popSymbolNode
+//@   modifies bl.currentStack.values, bl.err
+//@   ensures[latch] old(bl.err) != nil ==> bl.err != nil
+//@   ensures[usable] bl.err == nil ==> result != nil
+//@ func (*ToBoltListener).popBinaryOperand
+//@   modifies bl.currentStack.values, bl.err
+//@   ensures[latch] old(bl.err) != nil ==> bl.err != nil
+//@ func (*ToBoltListener).popSetFunction
+//@   modifies bl.currentStack.values, bl.err
+//@   ensures[latch] old(bl.err) != nil ==> bl.err != nil
